@@ -231,6 +231,22 @@ pub proof fn lemma_frame_rd(old_b: Seq<u8>, new_b: Seq<u8>, o: int, n: int, p: i
     assert(rd(new_b, p, m) =~= rd(old_b, p, m));
 }
 
+/// one field appended to a record under construction at `o`: `acc` is what has been written so far
+pub proof fn lemma_rec_write(b0: Seq<u8>, b: Seq<u8>, o: int, acc: Seq<u8>, data: Seq<u8>)
+    requires 0 <= o <= b0.len(), o + acc.len() <= b.len(), rd(b, o, acc.len() as int) == acc,
+        frame_outside(b0, b, o, acc.len() as int)
+    ensures
+        rd(write_at(b, (o + acc.len()) as nat, data), o, (acc.len() + data.len()) as int) == acc + data,
+        frame_outside(b0, write_at(b, (o + acc.len()) as nat, data), o, (acc.len() + data.len()) as int),
+{
+    let b2 = write_at(b, (o + acc.len()) as nat, data);
+    assert(rd(b2, o, (acc.len() + data.len()) as int) =~= acc + data) by {
+        assert forall|i: int| 0 <= i < acc.len() + data.len() implies rd(b2, o, (acc.len() + data.len()) as int)[i] == (acc + data)[i] by {
+            if i < acc.len() { assert(b2[o + i] == b[o + i]); assert(rd(b, o, acc.len() as int)[i] == b[o + i]); }
+        }
+    }
+}
+
 // ---- C09: the slot arithmetic ---------------------------------------------------------------------
 /// the 16 size classes of key.rs / val.rs (REC_SIZE_ARY)
 pub open spec fn is_class(s: nat) -> bool {
